@@ -5,14 +5,16 @@ const hookPkg = "github.com/redis/rueidis/rueidishook"
 func init() {
 	checks["C43"] = &checkDef{
 		Level:       levelOther,
-		Explanation: "Execution of the real rueidishook wrappers (WithHook, hookclient, dedicated, extended; module rueidishook) with a counting stub Hook and a stub inner client. The route (wrapped client itself, a client from Nodes(), the client from Dedicate(), the client handed to Dedicated()) and the entry point (Do, DoMulti, DoCache, DoMultiCache, Receive, DoStream, DoMultiStream; for dedicated clients Do, DoMulti, Receive) are decisions; every combination is executed. Oracle: exactly one hook invocation, of the matching method; the value returned to the caller is the hook's own result; the inner client is not called behind the hook's back. This property quantifies over the finite set of entry points ('programs'), so the exploration is an exhaustive enumeration of decisions with concrete data; no symbolic data is involved.",
+		Explanation: "Execution of the real rueidishook wrappers (WithHook, hookclient, dedicated, extended; module rueidishook) with a counting stub Hook and a stub inner client. The route (wrapped client itself, a client from Nodes(), the client from Dedicate(), the client handed to Dedicated()) and the entry point (Do, DoMulti, DoCache, DoMultiCache, Receive, DoStream, DoMultiStream; for dedicated clients Do, DoMulti, Receive) are decisions; every combination is executed. Oracle: exactly one hook invocation, of the matching method; the value returned to the caller is the hook's own result; the inner client is not called behind the hook's back. Chained hooks (WithHook(WithHook(c, h1), h2), both forwarding): on every route and entry point each hook sees the request exactly once and the underlying client (the node's client on the Nodes() route) is reached exactly once. This property quantifies over the finite set of entry points ('programs'), so the exploration is an exhaustive enumeration of decisions with concrete data; no symbolic data is involved.",
 		Assumptions: []string{"stub Hook and stub inner client (harness code)"},
 		Outside:     []string{"hook implementations that forward to the client (what the hook does is the user's code)"},
 		Bounds:      map[string]any{"quick": "4 routes × all entry points (27 combinations)", "thorough": "same"},
 		specs: func(tier string) []specRef {
 			r := hsx(hookPkg, "VerifC43_hooks", nil, 10000, 600, "client", "dedicated")
 			r.dir = "rueidishook"
-			return []specRef{r}
+			ch := hsx(hookPkg, "VerifC43_chained", nil, 10000, 600, "client", "dedicated", "nodes")
+			ch.dir = "rueidishook"
+			return []specRef{r, ch}
 		},
 	}
 }
